@@ -170,6 +170,15 @@ CLAIMED['C14'] = dict(
     note='Bounded exhaustive enumeration driven by the solver (discrete input space), not a proof beyond the bound; name pools of 3 nodes / 2 links / 2 patterns / 3 curves; self-loop links and re-used source names excluded.',
     ref='DESIGN.md section 4, C14')
 
+CLAIMED['C18'] = dict(
+    engine='symx',
+    technique='valve layers as solver-chosen bit vectors (forked choices) executed on the real pandas/networkx code and compared with a union-find oracle (bounded exhaustive enumeration certified by the solver); demand/length ratios by symbolic execution of the real valve_segment_attributes on pandas object Series of z3 proxies, decided by SMT (z3 NRA)',
+    text='Partition: for 4 graphs (parallel links, loop, dead ends, two components) and ALL 2^(2*links) valve layers, with and without a duplicated row: two elements share a segment exactly when they are joined '
+         'without passing a valve, labels are positive, segment sizes count their members, num_surround counts the other valves on the two segments a valve separates (0 when by-passed). Ratios: for ALL '
+         'non-negative node demands and link lengths, demand_increase and length_increase equal (a+b)/max(a,b) - 1 over the two segments, 0 for a by-passed valve.',
+    note='The partition half is enumeration of a discrete input space (pandas/networkx containers cannot be symbolic); only the ratio half is a for-all-values solver verdict. Graphs <= 5 nodes / 5 links.',
+    ref='DESIGN.md section 4, C18')
+
 NOT_APPLICABLE = {
     'C03': 'compares the numerical output of the closed EPANET shared library with a compiled Newton/SuperLU iteration; neither can be executed '
            'symbolically with the tools on this image and a contract standing in for EPANET would be the property itself (DESIGN.md section 5)',
